@@ -49,7 +49,7 @@ def nontrivial_key(o):
             seen.add(sb["height"])
             if sb["exits"] and sb["prev"] != "27ae5ba08d7291c96c8cbddcc148bf48a6d68c7974b94356f53754ef6171d757":
                 ok = True
-    return [o["in"]["retry"], o["in"]["start_block"], o["in"].get("seeds"), o["in"]["steps"]] if ok else None
+    return [o["in"]["retry"], o["in"].get("agg_prev"), o["in"]["start_block"], o["in"].get("seeds"), o["in"]["steps"]] if ok else None
 
 
 LEVEL_TEXT = ("Kernel-checked: for every state satisfying the protocol invariant of C02 (i.e. after every schedule) and every certificate "
